@@ -319,6 +319,13 @@ CATALOGUE: dict[str, dict] = {
     'ast_minus1': dict(target='manifest',
                        patch=change_attribute('MPD', 'availabilityStartTime', shift_iso_datetime(-1)),
                        family='ast_changed', needs=('live', 'refresh')),
+    # the corrupted response is the MPD patch document of a refresh (5.15.3.2: all three are mandatory)
+    'patch_no_mpdId': dict(target='patch', patch=remove_attribute('Patch', 'mpdId'), family='patch_attr',
+                           needs=('live', 'patch')),
+    'patch_no_publishTime': dict(target='patch', patch=remove_attribute('Patch', 'publishTime'), family='patch_attr',
+                                 needs=('live', 'patch')),
+    'patch_no_originalPublishTime': dict(target='patch', patch=remove_attribute('Patch', 'originalPublishTime'),
+                                         family='patch_attr', needs=('live', 'patch')),
 }
 
 FAMILIES = sorted({v['family'] for v in CATALOGUE.values()})
